@@ -8,8 +8,12 @@ import numpy as np
 
 from common import R, Rmat, Rvec, fl, flmat, max_rel_err
 
-LEAN_MODULES = ["PyomaVerif.Props.C17", "PyomaVerif.Mutants.C17"]
+from common import wiring_pre_build as pre_build  # noqa: E402,F401
+
+LEAN_MODULES = ["PyomaVerif.Props.C17", "PyomaVerif.Mutants.C17", "PyomaVerif.Props.WiringRun"]
 THEOREMS = [
+    # call-site wiring of the class layer, regenerated from /repo on every run (translate_wiring.py)
+    "PV.WiringRun.C01_run_realisation",
     "PV.C17.C17_factor_shape",
     "PV.C17.C17_factor_entry",
     "PV.C17.C17_block_entry",
